@@ -362,7 +362,7 @@ class Lexer:
                 if any(c not in "0123456789abcdefABCDEF" for c in tempbuf):
                     raise CklSyntaxError(
                         f"Invalid hex escape \\x{tempbuf}",
-                        SourcePos(fname, line, column),
+                        SourcePos(fname, startline, startcolumn),
                     )
                 token += chr(int(tempbuf, 16))
                 tempbuf = ""
@@ -404,7 +404,7 @@ class Lexer:
                 if any(c not in "0123456789abcdefABCDEF" for c in tempbuf):
                     raise CklSyntaxError(
                         f"Invalid hex escape \\x{tempbuf}",
-                        SourcePos(fname, line, column),
+                        SourcePos(fname, startline, startcolumn),
                     )
                 token += chr(int(tempbuf, 16))
                 tempbuf = ""
